@@ -27,8 +27,8 @@ impl Property for C04 {
 
     fn strategy(_tier: Tier) -> BoxedStrategy<Case> {
         let seq = (strat::ring_cfg(3), proptest::collection::vec(strat::step(strat::kind_basic().boxed(), 1, 1), 0..80)).prop_map(|(cfg, steps)| Case::Seq(History { cfg, steps, teardown: None }));
-        let sched = (0u8..=2, 1u8..=2, proptest::collection::vec(1u8..=3, 2..=4), 0u8..4, proptest::bool::weighted(0.3), proptest::collection::vec(any::<u16>(), 0..120))
-            .prop_map(|(sq_log2, gap, submitters, polls, sqpoll, tape)| Case::Sched(SchedCase { sq_log2, gap, submitters, polls, sqpoll, tape }));
+        let sched = (0u8..=2, 1u8..=2, proptest::collection::vec(1u8..=3, 2..=4), 0u8..4, proptest::bool::weighted(0.3), proptest::bool::weighted(0.25), proptest::collection::vec(any::<u16>(), 0..120))
+            .prop_map(|(sq_log2, gap, submitters, polls, sqpoll, drop_ring, tape)| Case::Sched(SchedCase { sq_log2, gap, submitters, polls, sqpoll, drop_ring, tape }));
         prop_oneof![3 => seq, 2 => sched].boxed()
     }
 
@@ -62,7 +62,7 @@ impl Property for C04 {
     }
 
     fn rule() -> &'static str {
-        "proptest histories over rings of 1..8 submission entries with generated start counters (0, 2^31-k, 2^32-k, arbitrary): operations are started and polled with deliberate over-subscription, the kernel consumes on Ring::poll; oracle: multiset and order of consumed SQEs == accepted submissions, each byte-equal to an independently written encoding, queue-full => Pending without publishing, room => accepted. Non-trivial = the history hit queue-full or the SQ counters crossed 2^32. Distinct = distinct (ring class, feature set) fingerprints. C04b (2 of 5 cases): 2..4 submitter threads x 1..3 operations into a 1..4-entry queue primed to len-1 or len-2 entries, a poller thread (Ring::poll) or the SQPOLL kernel thread consuming, all under a baton scheduler (one runnable thread; scheduling points at a10's lock/try_lock/kernel-shared loads/tail store and at every simulated system call) following a generated choice tape; afterwards everything is driven to completion sequentially; oracle: every entry the kernel consumed is a well-formed submission of exactly one operation, none twice, none missing, all operations resolve. Non-trivial (scheduled) = a context switch happened inside a10 and there were more operations than slots."
+        "proptest histories over rings of 1..8 submission entries with generated start counters (0, 2^31-k, 2^32-k, arbitrary): operations are started and polled with deliberate over-subscription, the kernel consumes on Ring::poll; oracle: multiset and order of consumed SQEs == accepted submissions, each byte-equal to an independently written encoding, queue-full => Pending without publishing, room => accepted. Non-trivial = the history hit queue-full or the SQ counters crossed 2^32. Distinct = distinct (ring class, feature set) fingerprints. C04b (2 of 5 cases): 2..4 submitter threads x 1..3 operations into a 1..4-entry queue primed to len-1 or len-2 entries, a poller thread (Ring::poll) or the SQPOLL kernel thread consuming, optionally dropping the Ring while they submit (then every published entry must have been passed to the kernel by the drop and late submitters refused), all under a baton scheduler (one runnable thread; scheduling points at a10's lock/try_lock/kernel-shared loads/tail store and at every simulated system call) following a generated choice tape; afterwards everything is driven to completion sequentially; oracle: every entry the kernel consumed is a well-formed submission of exactly one operation, none twice, none missing, all operations resolve. Non-trivial (scheduled) = a context switch happened inside a10 and there were more operations than slots."
     }
 
     fn assumptions() -> Vec<&'static str> {
